@@ -118,11 +118,10 @@ class Section(Entity):
                 raise NameError("Name already exist. Possible solution is to "
                                 "provide a new name when copying destination "
                                 "is the same as the source parent")
-            objcopy = copy_from._parent._h5group.copy(source=src, dest=self._h5group, name=name,
-                                                      cls=clsname, keep_id=keep_copy_id)
-
-            id_ = objcopy.attrs["entity_id"]
-            return self.props[id_]
+            copy_from._parent._h5group.copy(source=src, dest=self._h5group, name=name,
+                                            cls=clsname, keep_id=keep_copy_id)
+            # the name identifies the copy; its id may be shared with the source
+            return self.props[name]
 
         vals = values_or_dtype
 
@@ -206,9 +205,10 @@ class Section(Entity):
 
         if not children:
             for prop in obj.props:
-                self.sections[obj.name].create_property(copy_from=prop, keep_copy_id=keep_id)
+                self.sections[name].create_property(copy_from=prop, keep_copy_id=keep_id)
 
-        return self.sections[sec.attrs["entity_id"]]
+        # the name identifies the copy; its id may be shared with the source
+        return self.sections[name]
 
     @property
     def reference(self):
